@@ -6,9 +6,11 @@
 (***************************************************************************)
 EXTENDS FM94
 
-CONSTANTS MasterVersion, LocalVersion, Centre, SubCentre
+CONSTANTS MasterVersion, LocalVersion, Centre, SubCentre,
+          IdentVariant      \* 0: the plain identification; 1: every identification field at the top of its range
 
-Ident == [Ident0 EXCEPT !.mversion = MasterVersion, !.lversion = LocalVersion, !.centre = Centre, !.subcentre = SubCentre]
+Ident == IF IdentVariant = 1 THEN [IdentMax EXCEPT !.mversion = MasterVersion]
+         ELSE [Ident0 EXCEPT !.mversion = MasterVersion, !.lversion = LocalVersion, !.centre = Centre, !.subcentre = SubCentre]
 
 EmitEntry(e) ==
     [lab |-> e.lab, t |-> e.t, w |-> e.w, sc |-> e.sc, link |-> e.link, d |-> e.d, p |-> e.p, mean |-> e.mean,
@@ -20,7 +22,7 @@ Behaviour ==
      padding_nonzero |-> IF Mode = "consume" /\ err = ""
                          THEN \E i \in (DataBit0 + pos + 1)..(8 * (Hdrs[tid].s4 + Hdrs[tid].l4)) : BitOf(Oct, i) = 1
                          ELSE FALSE,
-     nbits |-> Len(bits), mversion |-> MasterVersion, lversion |-> LocalVersion, centre |-> Centre, subcentre |-> SubCentre,
+     nbits |-> Len(bits), identv |-> IdentVariant, mversion |-> MasterVersion, lversion |-> LocalVersion, centre |-> Centre, subcentre |-> SubCentre,
      msg |-> IF Mode = "produce" THEN Message(ed, Ident, <<>>, nsub, TRUE, cmp, Templates[tid], bits) ELSE <<>>,
      subsets |-> [s \in 1..Len(AllOut) |-> [i \in 1..Len(AllOut[s]) |-> EmitEntry(AllOut[s][i])]]]
 
